@@ -134,7 +134,10 @@ def main():
         # Task: the worker's result is the output (its reply text has the same n characters)
         r, pubs, term, lo = run_machine(dict(NXT, S={"Type": "Task", "Resource": sim.FN + "f", "Next": "N"}), {}, worker=lambda q: ("a" * (n - 2),))
         classify("se_change_state", n, r, pubs, term, lo, expect_next="N")
-        # Task reply gate alone (result discarded), one- and two-byte characters
+        # Task: a small reply placed into a large input by ResultPath - only the composed state output has n characters
+        k_big = n - len(json.dumps({"big": "", "r": "b"}))
+        r, pubs, term, lo = run_machine(dict(NXT, S={"Type": "Task", "Resource": sim.FN + "f", "ResultPath": "$.r", "Next": "N"}), {"big": "a" * k_big}, worker=lambda q: ("b",))
+        classify("se_change_state", n, r, pubs, term, lo, expect_next="N")
         for ch in ("a", "é"):
             body = ('"' + ch * (n - 2) + '"').encode("utf8")
             r, pubs, term, lo = run_machine(dict(NXT, S={"Type": "Task", "Resource": sim.FN + "f", "ResultPath": None, "Next": "N"}), {}, worker=lambda q: (body,))
